@@ -395,9 +395,9 @@ def selftest():
             assert b58decode(b58encode(b)) == b == b58decode_fast(b58encode(b))
     # Base58Check: well-known strings
     h160_g = bytes.fromhex("751e76e8199196d454941c45d1b3a323f1433bd6")  # HASH160 of the compressed generator
-    assert b58check_encode(b"\x00" + h160_g) == "1BvBMSEYstWetqTFn5Au4m4GFg7xJaNVN2"
-    assert b58check_decode("1BvBMSEYstWetqTFn5Au4m4GFg7xJaNVN2") == b"\x00" + h160_g
-    assert b58check_decode("1BvBMSEYstWetqTFn5Au4m4GFg7xJaNVN3") is None
+    assert b58check_encode(b"\x00" + h160_g) == "1BgGZ9tcN4rm9KBzDn7KprQz87SZ26SAMH"
+    assert b58check_decode("1BgGZ9tcN4rm9KBzDn7KprQz87SZ26SAMH") == b"\x00" + h160_g
+    assert b58check_decode("1BgGZ9tcN4rm9KBzDn7KprQz87SZ26SAMJ") is None
     assert b58check_decode("1111") is None and b58check_decode("") is None
     # WIF (Bitcoin wiki example and the secret-1 keys)
     assert wif_encode(0x0C28FCA386C7A227600B2FE50B7CAE11EC86D3BF1FBE471BE89827E19D72AA1D, False, "mainnet") == "5HueCGU8rMjxEXxiPuD5BDku4MkFqeZyd4dZ1jvhTVqvbTLvyTJ"
@@ -435,7 +435,7 @@ def selftest():
         ("tb", "tb1pqqqqp399et2xygdj5xreqhjjvcmzhxw4aywxecjdzew6hylgvsesf3hn0c", "5120000000c4a5cad46221b2a187905e5266362b99d5e91c6ce24d165dab93e86433"),
         ("bc", "bc1p0xlxvlhemja6c4dqv22uapctqupfhlxm9h8z3k2e72q4k9hcz7vqzk5jj0", "512079be667ef9dcbbac55a06295ce870b07029bfcdb2dce28d959f2815b16f81798"),
         # regtest strings published in the repository's test data (used as data only)
-        ("bcrt", "bcrt1qqqqqqqqqqqqqqqqqqqqqqqqqqqqqqqqqqdku202", "00140000000000000000000000000000000000000000"),
+        ("bcrt", "bcrt1qqqqqqqqqqqqqqqqqqqqqqqqqqqqqqqqqdku202", "00140000000000000000000000000000000000000000"),
         ("bcrt", "bcrt1p0xlxvlhemja6c4dqv22uapctqupfhlxm9h8z3k2e72q4k9hcz7vqc8gma6", "512079be667ef9dcbbac55a06295ce870b07029bfcdb2dce28d959f2815b16f81798"),
         ("bcrt", "bcrt1qrp33g0q5c5txsp9arysrx4k6zdkfs4nce4xj0gdcccefvpysxf3qzf4jry", "00201863143c14c5166804bd19203356da136c985678cd4d27a1b8c6329604903262"),
     ]
@@ -500,7 +500,7 @@ def selftest():
                     assert polymod(hrp_expand(hrp) + m) == base ^ T[i][d1] ^ T[j][d2]
     # templates
     assert address("p2wpkh", h160_g, "mainnet") == "bc1qw508d6qejxtdg4y5r3zarvary0c5xw7kv8f3t4"
-    assert address("p2pkh", h160_g, "mainnet") == "1BvBMSEYstWetqTFn5Au4m4GFg7xJaNVN2"
+    assert address("p2pkh", h160_g, "mainnet") == "1BgGZ9tcN4rm9KBzDn7KprQz87SZ26SAMH"
     assert address("p2pkh", h160_g, "testnet") == "mrCDrCybB6J1vRfbwM5hemdJz73FwDBC8r"
     assert address_decode("bc1qw508d6qejxtdg4y5r3zarvary0c5xw7kv8f3t4", "mainnet") == ("p2wpkh", h160_g)
     assert address_decode("bc1qw508d6qejxtdg4y5r3zarvary0c5xw7kv8f3t4", "testnet") is None
